@@ -69,7 +69,7 @@ pub fn real_trace(v: &RunView, sid: u32) -> RealTrace {
     let names = |ids: &Vec<u32>| -> BTreeSet<String> { ids.iter().filter_map(|i| id_names.get(i)).filter(|n| !is_root_name(n)).cloned().collect() };
     let mut t = RealTrace { obs: vec![], seqs: vec![], inputs: vec![], id_names: id_names.clone(), ended: false, snapshots: vec![] };
     // delayed sends: item -> event name (known once the timer fired and the processor sent it)
-    let mut item_event: BTreeMap<u64, String> = BTreeMap::new();
+    let mut item_event: BTreeMap<u64, EvDesc> = BTreeMap::new();
     {
         let mut firing: BTreeMap<usize, u64> = BTreeMap::new(); // timer task -> item
         for r in v.log {
@@ -83,7 +83,7 @@ pub fn real_trace(v: &RunView, sid: u32) -> RealTrace {
                 RecKind::Send { ev, .. } => {
                     if let Some(item) = firing.get(&r.task) {
                         if let Some(e) = ev {
-                            item_event.entry(*item).or_insert_with(|| e.name.clone());
+                            item_event.entry(*item).or_insert_with(|| e.clone());
                         }
                     }
                 }
@@ -122,9 +122,18 @@ pub fn real_trace(v: &RunView, sid: u32) -> RealTrace {
             RecKind::Method { name: "externalQueue.dequeue", enter: true } => Some(Obs::Idle),
             RecKind::Send { chan, ev, .. } if Some(r.task) == own_task => {
                 let target = if Some(*chan) == own_chan { String::new() } else { chan_session.get(chan).map(|s| format!("#_scxml_{}", s)).unwrap_or_else(|| format!("chan{}", chan)) };
-                Some(Obs::Sent { event: ev.as_ref().map(|e| e.name.clone()).unwrap_or_default(), target, delay_ms: 0 })
+                Some(Obs::Sent {
+                    event: ev.as_ref().map(|e| e.name.clone()).unwrap_or_default(),
+                    target,
+                    delay_ms: 0,
+                    sendid: ev.as_ref().and_then(|e| e.sendid.clone()),
+                    params: ev.as_ref().and_then(|e| e.params.clone()),
+                })
             }
-            RecKind::TimerSched { item, delay, .. } => Some(Obs::Sent { event: item_event.get(item).cloned().unwrap_or_else(|| "?".into()), target: "?".into(), delay_ms: (*delay).max(0) as u64 }),
+            RecKind::TimerSched { item, delay, .. } => match item_event.get(item) {
+                Some(e) => Some(Obs::Sent { event: e.name.clone(), target: "?".into(), delay_ms: (*delay).max(0) as u64, sendid: e.sendid.clone(), params: e.params.clone() }),
+                None => Some(Obs::Sent { event: "?".into(), target: "?".into(), delay_ms: (*delay).max(0) as u64, sendid: Some("?".into()), params: Some(vec![("?".into(), "?".into())]) }),
+            },
             RecKind::Snapshot { at, config, .. } => {
                 t.snapshots.push((r.seq, at, config.clone()));
                 if *at == "microstep" || *at == "startup" {
@@ -153,6 +162,7 @@ pub struct Prediction {
     pub diverged: bool,
     pub micro_info: Vec<(usize, bool)>,
     pub quirk_hits: Vec<&'static str>,
+    pub term_start: Option<usize>,
 }
 
 pub fn predict_full(doc: &Doc, sid: u32, inputs: &[EvIn], quirks: &Quirks) -> Prediction {
@@ -166,7 +176,7 @@ pub fn predict_full(doc: &Doc, sid: u32, inputs: &[EvIn], quirks: &Quirks) -> Pr
         }
         it.external(ev.clone());
     }
-    Prediction { obs: std::mem::take(&mut it.out), diverged: it.diverged, micro_info: std::mem::take(&mut it.micro_info), quirk_hits: std::mem::take(&mut it.quirk_hits) }
+    Prediction { obs: std::mem::take(&mut it.out), diverged: it.diverged, micro_info: std::mem::take(&mut it.micro_info), quirk_hits: std::mem::take(&mut it.quirk_hits), term_start: it.term_start }
 }
 
 pub fn predict(doc: &Doc, sid: u32, inputs: &[EvIn], quirks: &Quirks) -> (Vec<Obs>, bool) {
@@ -202,8 +212,10 @@ fn obs_short(o: &Obs) -> String {
 
 fn sent_matches(exp: &Obs, got: &Obs) -> bool {
     match (exp, got) {
-        (Obs::Sent { event: e1, target: t1, delay_ms: d1 }, Obs::Sent { event: e2, target: t2, delay_ms: d2 }) => {
-            (e2 == "?" || e1 == e2) && (t2 == "?" || t1 == t2) && d1 == d2
+        (Obs::Sent { event: e1, target: t1, delay_ms: d1, sendid: s1, params: p1 }, Obs::Sent { event: e2, target: t2, delay_ms: d2, sendid: s2, params: p2 }) => {
+            let unknown = e2 == "?";
+            let sid_ok = unknown || s1 == s2 || matches!((s1, s2), (Some(a), Some(_)) if a.starts_with("<generated:"));
+            (unknown || e1 == e2) && (t2 == "?" || t1 == t2) && d1 == d2 && sid_ok && (unknown || p1 == p2)
         }
         _ => false,
     }
@@ -212,7 +224,16 @@ fn sent_matches(exp: &Obs, got: &Obs) -> bool {
 /// Compare prediction and reality record by record. `with_config` is false when the run had snapshots
 /// switched off (observer-light): Config observations are then removed from the prediction.
 pub fn compare(expected: &[Obs], real: &RealTrace, with_config: bool, uses_history: bool) -> Option<Divergence> {
-    let exp: Vec<&Obs> = expected.iter().filter(|o| with_config || !matches!(o, Obs::Config(_))).collect();
+    compare_t(expected, real, with_config, uses_history, None)
+}
+
+/// `term_start`: index into `expected` where the termination phase (exitInterpreter) begins; a divergence at
+/// or after it belongs to the family "termination".
+pub fn compare_t(expected: &[Obs], real: &RealTrace, with_config: bool, uses_history: bool, term_start: Option<usize>) -> Option<Divergence> {
+    // <cancel> has no tracer callback in rFSM: its effect is checked through the timer history instead
+    let keep = |o: &Obs| !matches!(o, Obs::Cancelled(_)) && (with_config || !matches!(o, Obs::Config(_)));
+    let exp: Vec<&Obs> = expected.iter().filter(|o| keep(o)).collect();
+    let term_filtered: Option<usize> = term_start.map(|t| expected.iter().take(t).filter(|o| keep(o)).count());
     let got: Vec<&Obs> = real.obs.iter().filter(|o| with_config || !matches!(o, Obs::Config(_))).collect();
     let seqs: Vec<u64> = real.obs.iter().zip(real.seqs.iter()).filter(|(o, _)| with_config || !matches!(o, Obs::Config(_))).map(|(_, s)| *s).collect();
     let n = exp.len().max(got.len());
@@ -229,7 +250,12 @@ pub fn compare(expected: &[Obs], real: &RealTrace, with_config: bool, uses_histo
         // the real session may legitimately stop short of the prediction only at the very end (it was
         // still running when the run was cut) - not the case here: the driver always settles. A longer
         // real trace (e.g. events processed after the end) is a divergence too.
-        let family = classify(e, g, uses_history);
+        let mut family = classify(e, g, uses_history);
+        if let Some(t) = term_filtered {
+            if i >= t {
+                family = "termination";
+            }
+        }
         let lo = i.saturating_sub(6);
         let mut context: Vec<String> = Vec::new();
         for k in lo..i {
